@@ -12,22 +12,13 @@ theorem words_length (xs : List Nat) : (xs.flatMap fun x => pad32 (x % 2 ^ 256))
   | cons x xs ih => simp [List.flatMap_cons, pad32_length _ (word_lt x), ih]; omega
 
 theorem words_decode (xs : List Nat) (rest : Bytes) :
-    (List.range xs.length).map (fun j => beToNat ((((xs.flatMap fun x => pad32 (x % 2 ^ 256)) ++ rest).drop (32 * j)).take 32))
-      = xs.map (· % 2 ^ 256) := by
+    words xs.length ((xs.flatMap fun x => pad32 (x % 2 ^ 256)) ++ rest) = xs.map (· % 2 ^ 256) := by
   induction xs with
   | nil => rfl
   | cons x xs ih =>
     have hl : (pad32 (x % 2 ^ 256)).length = 32 := pad32_length _ (word_lt x)
-    rw [List.length_cons, List.range_succ_eq_map, List.map_cons, List.map_map, List.map_cons]
-    congr 1
-    · simp only [List.flatMap_cons, List.append_assoc, Nat.mul_zero, List.drop_zero]
-      rw [take_app hl, beToNat_pad32]
-    · rw [← ih]
-      apply List.map_congr_left
-      intro j _
-      simp only [Function.comp, List.flatMap_cons, List.append_assoc]
-      have : 32 * (j + 1) = 32 + 32 * j := by omega
-      rw [this, drop_app_add hl]
+    simp only [List.length_cons, words, List.flatMap_cons, List.append_assoc, List.map_cons]
+    rw [take_app hl, drop_app hl, beToNat_pad32, ih]
 
 theorem encUints_length (xs : List Nat) (h : xs.length < 2 ^ 256) : (encUints xs).length = 32 + 32 * xs.length := by
   have := words_length xs
